@@ -37,7 +37,7 @@ from vlib import leanrun, qgates
 from vlib.driver import run_driver
 from vlib.proofs import build_and_audit, registry
 
-from props import C13_defs
+from props import C13_defs, C13_results
 
 PROP = "C13"
 DRIVER = "DriverC13.lean"
@@ -1720,6 +1720,8 @@ def run(ctx):
     search_gates(ctx, lab, bad_names)
     corr_and_search_layouts(ctx, lab)
     search_register_names(ctx)
+    from props import basis_meas
+    basis_meas.run(ctx, PROP, ['raw-from_dict', 'raw-from_dict-twice', 'qasm'])
     corr_reader_programs(ctx)
     C13_defs.run_suites(ctx)
     search_programs(ctx)
@@ -1734,3 +1736,6 @@ def run(ctx):
         search_results(ctx, scratch)
     finally:
         shutil.rmtree(scratch, ignore_errors=True)
+    # every way of building a result object x accessor history before the dump; circuits with
+    # rotated-basis measurements through raw / from_dict
+    C13_results.run_suites(ctx)
